@@ -16,7 +16,9 @@ import random
 from fractions import Fraction
 
 RHO2_MIN = Fraction(1, 10 ** 6)      # "clearly non-stationary": every hull point g has |g| / s >= 1e-3 = 10 norm_eps
-P_LADDER = (7, 8, 9)                 # 2^-7: singular values / row norms 128x .. 16384x apart (beyond 100x)
+# 2^-7: singular values / row norms 128x .. 16384x apart (beyond 100x); the larger exponents are reached by the instances
+# whose hull stays far from the origin however small eps is (e.g. rows that differ only in a scaled column)
+P_LADDER = (7, 8, 9, 12, 16)
 P_MODERATE = 5                       # 32x .. 1024x
 
 # the shapes [m, n, e, mod] of BSFamQuick / BSFamThorough (DualCone.tla) and BSShapesQuick / BSShapesThorough
@@ -27,8 +29,8 @@ def _sh(m, n, e, mod):
 
 SHAPES = {
     "C04": {"quick": [_sh(2, 2, 2, 4), _sh(2, 3, 1, 16), _sh(3, 2, 2, 192), _sh(3, 3, 1, 192)],
-            "thorough": [_sh(2, 2, 2, 1), _sh(2, 3, 1, 1), _sh(3, 2, 1, 2), _sh(3, 2, 2, 24), _sh(3, 3, 1, 24)]},
-    "C18": {"quick": [_sh(2, 2, 2, 4), _sh(2, 3, 1, 16), _sh(3, 2, 2, 192), _sh(3, 3, 1, 192)],
+            "thorough": [_sh(2, 2, 2, 1), _sh(2, 3, 1, 1), _sh(3, 2, 1, 2), _sh(3, 2, 2, 32), _sh(3, 3, 1, 32)]},
+    "C18": {"quick": [_sh(2, 2, 2, 8), _sh(2, 3, 1, 32), _sh(3, 2, 2, 384), _sh(3, 3, 1, 384)],
             "thorough": [_sh(2, 2, 2, 1), _sh(2, 3, 1, 2), _sh(3, 2, 2, 48), _sh(3, 3, 1, 48)]},
 }
 
